@@ -153,6 +153,7 @@ package server
 //@ assume at call Sprintf#0: result == idxSearchKey(*req.SecondaryIndexName, req.Key) because "meaning of the ghost function: the search key is the range-prefix format applied to the index name and the key asked for"
 //@ loop 0 modifies ghost(pos, it), fresh
 //@ loop 0 invariant it != nil && ghost(n, it) == dbN(db) && -1 <= ghost(pos, it) && ghost(pos, it) <= ghost(n, it)
+//@ loop 0 invariant req.ComparisonType == 1 ==> ghost(pos, it) < ghost(n, it)
 //@ loop 0 invariant req.ComparisonType == 1 ==> ghost(pos, it) <= dbLB(db, idxSearchKey(*req.SecondaryIndexName, req.Key)) && (pastEndOfIndex ==> ghost(pos, it) >= dbLB(db, idxSearchKey(*req.SecondaryIndexName, req.Key)) - 1) && (!pastEndOfIndex ==> ghost(pos, it) <= dbLB(db, idxSearchKey(*req.SecondaryIndexName, req.Key)) - 1) && (ghost(pos, it) < dbLB(db, idxSearchKey(*req.SecondaryIndexName, req.Key)) - 1 ==> floorRejected(db, *req.SecondaryIndexName, req.Key, dbLB(db, idxSearchKey(*req.SecondaryIndexName, req.Key)) - 1))
 //@ ensures primaryKey != "" ==> exists k string :: inIndex(k, *req.SecondaryIndexName) && primaryKey == idxPk(k) && secondaryKey == idxSk(k)
 //@ ensures err == nil && primaryKey == "" && req.ComparisonType == 1 ==> floorRejected(db, *req.SecondaryIndexName, req.Key, dbLB(db, idxSearchKey(*req.SecondaryIndexName, req.Key)) - 1)
